@@ -97,6 +97,15 @@ let register (reg : string -> (string list -> string) -> unit) : unit =
         | Some (x, y) -> Printf.sprintf "%d.%d" (int_of_z x) (int_of_z y)
         | None -> "-") (DctPipeline.pixel_owners (zi w) (zi h) comps hv))
     | _ -> "?");
+  (* dct_rst <restartInt> <nMCU> <bytes after the SOS header, hex> ->
+     "ok:<number of restart intervals found>" | "err" (an MCU needs an interval that is missing) *)
+  reg "dct_rst" (fun a -> match a with
+    | [ri; n; d] ->
+      let ivs = DctRestart.split_rst (zi ri) (bytes_of_hex d) in
+      (match DctRestart.mcu_plan (zi ri) (z_of_int (L.length ivs)) (nat_of_int (int_of_string n)) with
+       | None -> "err"
+       | Some _ -> "ok:" ^ string_of_int (L.length ivs))
+    | _ -> "?");
   ()
 
 let () = registrars := register :: !registrars
